@@ -684,6 +684,9 @@ func (x *tr) binary(e *ast.BinaryExpr) val {
 	if v, ok := x.refNilTest(e); ok { // ext_chain.go
 		return v
 	}
+	if v, ok := x.hintVariant(e); ok { // canon.go: an evident variant of a hinted boolean (a != b, b == a, s == "" / len(s) == 0)
+		return v
+	}
 	ra, rb := x.expr(e.X), x.expr(e.Y)
 	if ra.typ == "untyped-int" && rb.typ == "untyped-int" {
 		va, _ := strconv.ParseInt(ra.lit, 10, 64)
